@@ -108,6 +108,41 @@ def _has_quant_py(e):
     return False
 
 
+_HEAVY = {}
+
+
+def _heavy_len(f):
+    """a formula that bounds a string length by a large constant (len(s) <= 20000 ...).  z3's sequence solver
+    needs seconds (and overruns its timeout) to build *models* for such constraints, while refutations are
+    immediate.  Feasibility pre-checks therefore leave these formulas out (sound: dropping a constraint can only
+    make more branches look feasible); proof obligations always use the full path condition."""
+    i = f.get_id()
+    hit = _HEAVY.get(i)
+    if hit is not None:
+        return hit[1]      # (the entry keeps the formula alive: z3 recycles the ids of freed terms)
+    has_len = big = False
+    seen = set()
+    st = [f]
+    while st and not (has_len and big):
+        x = st.pop()
+        if x.get_id() in seen:
+            continue
+        seen.add(x.get_id())
+        if z3.is_quantifier(x):
+            st.append(x.body())
+        elif z3.is_app(x):
+            if x.decl().kind() == z3.Z3_OP_SEQ_LENGTH:
+                has_len = True
+            elif z3.is_int_value(x) and abs(x.as_long()) > 64:
+                big = True
+            st.extend(x.children())
+    r = has_len and big
+    if len(_HEAVY) > 200000:
+        _HEAVY.clear()
+    _HEAVY[i] = (f, r)
+    return r
+
+
 def _split_conj(phi, depth=0):
     if depth > 6:
         return [phi]
@@ -209,10 +244,23 @@ class Path:
         if z3.is_true(phi):
             return
         self.pc.append(phi)
-        if not _has_quant(phi):
+        if not _has_quant(phi) and not _heavy_len(phi):
             self.qf.add(phi)
         else:
             self.pc_has_quant = True
+
+    def assume_bg(self, phi):
+        """assume a quantified *background axiom* (theory of an uninterpreted symbol).  Proof obligations see it;
+        branch-feasibility pre-checks leave it out (sound: fewer constraints = more branches look feasible) because
+        confirming a model against quantified axioms is what makes those checks time out."""
+        if not hasattr(self, "bg_ids"):
+            self.bg_ids = set()
+        self.bg_ids.add(phi.get_id())
+        self.pc.append(phi)
+
+    def _feas_pc(self):
+        bg = getattr(self, "bg_ids", ())
+        return [f for f in self.pc if not _heavy_len(f) and f.get_id() not in bg]
 
     def _check(self, extra):
         # identical (pc, goal) pairs recur because every path re-executes the common prefix; z3 terms are
@@ -267,7 +315,28 @@ class Path:
     def _feasible_nocache(self, c):
         t0 = time.time()
         try:
-            if not _has_quant(c):
+            if _heavy_len(c):
+                return True
+            if getattr(self.ver, "feas_fresh", False):
+                # contracts with feas_fresh=True: a fresh (non-incremental) solver over the quantifier-free part of the
+                # path condition; z3's incremental mode is several times slower on datatype/array/string models
+                allf = self._feas_pc()
+                qfs = [f for f in allf if not _has_quant(f)]
+                if not _has_quant(c):
+                    s = z3.Solver()
+                    if getattr(self.ver, "feas_rlimit", None):
+                        s.set("rlimit", 4 * self.ver.feas_rlimit)     # deterministic budget (see the note below)
+                    else:
+                        s.set("timeout", max(4 * self.ver.feas_timeout_ms, 400))
+                    for f in qfs:
+                        s.add(f)
+                    s.add(c)
+                    r = s.check()
+                    if r == z3.unsat:
+                        return False
+                    if r == z3.sat and len(qfs) == len(allf):
+                        return True
+            elif not _has_quant(c):
                 self.qf.push()
                 self.qf.add(c)
                 r = self.qf.check()
@@ -275,7 +344,9 @@ class Path:
                 if r == z3.unsat:
                     return False
                 if r == z3.sat and not self.pc_has_quant:
-                    return True      # the whole path condition is quantifier free: the incremental answer is final
+                    # the whole path condition (background axioms aside, see assume_bg) is quantifier free:
+                    # the incremental answer is final
+                    return True
             s = z3.Solver()
             if getattr(self.ver, "feas_rlimit", None):
                 # a contract-specific feasibility budget is a deterministic z3 resource limit, not a wall-clock timeout:
@@ -283,7 +354,7 @@ class Path:
                 s.set("rlimit", self.ver.feas_rlimit)
             else:
                 s.set("timeout", self.ver.feas_timeout_ms)
-            for f in self.pc:
+            for f in self._feas_pc():
                 s.add(f)
             s.add(c)
             return s.check() != z3.unsat
@@ -294,6 +365,14 @@ class Path:
             self.ver.queries += 1
             if TRACE and dt > 0.5:
                 print("   [feas %.2fs]" % dt, str(c)[:100])
+                if _os.environ.get("PYVC_DUMPFEAS") and dt > 0.5:
+                    Path._nd = getattr(Path, "_nd", 0) + 1
+                    s2 = z3.Solver()
+                    for f in self.pc:
+                        if not _heavy_len(f):
+                            s2.add(f)
+                    s2.add(c)
+                    open("/tmp/feas_%d.smt2" % Path._nd, "w").write(s2.to_smt2())
 
     def known(self, cond):
         """is cond implied by the path condition? (cheap check; False when not established quickly)"""
